@@ -27,12 +27,18 @@ N_SCORER_SLOTS = 3
 N_SHARED = 2
 
 SHARED_COSTS = [{"cls": "L2Cost"}, {"cls": "GaussianVarCost"}, {"cls": "L2Cost", "param": 0.0}, {"cls": "L1Cost"},
-                {"cls": "L1Cost", "scale": 2.5}]
+                {"cls": "L1Cost", "scale": 2.5},
+                # min_size of this one depends on the data it was last fitted on (p + 1)
+                {"cls": "GaussianCovCost"}, {"cls": "GaussianCovCost", "param": {"tuple": [0.0, 1.0]}},
+                {"cls": "GaussianVarCost", "param": {"tuple": [0.0, 1.0]}}]
 SCORER_SPECS = [{"cls": "L2Cost"}, {"cls": "L2Cost", "param": 0.5}, {"cls": "GaussianVarCost"}, {"cls": "CUSUM"},
                 {"cls": "ChangeScore", "cost": {"cls": "L2Cost"}}, {"cls": "ChangeScore", "cost": {"cls": "GaussianVarCost"}},
                 {"cls": "L2Saving"}, {"cls": "Saving", "baseline_cost": {"cls": "L2Cost", "param": 0.0}},
                 {"cls": "LocalAnomalyScore", "cost": {"cls": "L2Cost"}},
-                {"cls": "LocalAnomalyScore", "cost": {"cls": "GaussianVarCost"}}]
+                {"cls": "LocalAnomalyScore", "cost": {"cls": "GaussianVarCost"}},
+                {"cls": "GaussianCovCost"}, {"cls": "ChangeScore", "cost": {"cls": "GaussianCovCost"}},
+                {"cls": "Saving", "baseline_cost": {"cls": "GaussianCovCost", "param": {"tuple": [0.0, 1.0]}}},
+                {"cls": "LocalAnomalyScore", "cost": {"cls": "GaussianCovCost"}}]
 SHARE_KEY = {"PELT": "cost", "MovingWindow": "change_score", "SeededBinarySegmentation": "change_score",
              "CircularBinarySegmentation": "anomaly_score", "CAPA": "collective_saving", "MVCAPA": "collective_saving"}
 
@@ -85,7 +91,7 @@ def frames_equal(a, b):
 class Interpreter:
     """Executes an op list against real objects and against the history-free model."""
 
-    def __init__(self, datasets):
+    def __init__(self, datasets, index_name=None):
         import pandas as pd
 
         self.data = []
@@ -97,7 +103,8 @@ class Interpreter:
             # the new values win on shared labels); the overlap is a deterministic function of the position
             overlap = min((0, 1, 0, 2, 1)[i % 5], len(arr) - 1, off)
             off -= overlap
-            df = pd.DataFrame(arr, index=pd.RangeIndex(off, off + len(arr)), columns=[f"c{j}" for j in range(arr.shape[1])])
+            df = pd.DataFrame(arr, index=pd.RangeIndex(off, off + len(arr), name=index_name),
+                              columns=[f"c{j}" for j in range(arr.shape[1])])
             off += len(arr)
             self.data.append(df)
             self.pristine.append(df.copy(deep=True))
@@ -131,7 +138,8 @@ class Interpreter:
     # ---- invariants
     def check_invariants(self, where):
         for i, (df, ref_) in enumerate(zip(self.data, self.pristine)):
-            if not df.equals(ref_) or not df.index.equals(ref_.index) or list(df.dtypes) != list(ref_.dtypes):
+            if not df.equals(ref_) or not D.same_index(df.index, ref_.index) or list(df.dtypes) != list(ref_.dtypes) \
+                    or list(df.columns) != list(ref_.columns):
                 raise Violation(f"the caller's data (dataset {i}) was modified", after=where)
         for slot, obj in self.det.items():
             want = describe(self.fresh_detector(self.det_model[slot]))
@@ -540,7 +548,7 @@ def summarize(interp, n_ops):
 
 def check(case):
     """Replay entry point: executes a whole history."""
-    interp = Interpreter(case["datasets"])
+    interp = Interpreter(case["datasets"], case.get("index_name"))
     for op in case["ops"]:
         interp.step(op)
     return summarize(interp, len(case["ops"]))
@@ -567,9 +575,13 @@ def make_machine(tier, api):
             self.interp = None
             self.log = []
             self.datasets = None
+            self.index_name = None
 
         def case(self):
-            return {"datasets": self.datasets, "ops": list(self.log)}
+            case = {"datasets": self.datasets, "ops": list(self.log)}
+            if self.index_name is not None:
+                case["index_name"] = self.index_name
+            return case
 
         def run(self, op):
             if api.shrink_expired():
@@ -588,7 +600,8 @@ def make_machine(tier, api):
         @initialize(pool=dataset_pool(), data=st.data())
         def init(self, pool, data):
             self.datasets = pool
-            self.interp = Interpreter(pool)
+            self.index_name = data.draw(st.sampled_from([None, "time"]))
+            self.interp = Interpreter(pool, self.index_name)
             # start with some objects so that the steps are not wasted on empty slots
             for sid in range(N_SHARED):
                 self.run({"op": "new_shared", "id": sid, "spec": data.draw(st.sampled_from(SHARED_COSTS))})
@@ -601,13 +614,16 @@ def make_machine(tier, api):
 
         def _new_detector(self, slot, data, share):
             det = data.draw(st.sampled_from(K.DETECTORS))
-            params, _ = data.draw(K.detector_params(det, 1, max_msl=3, max_bw=3, allow_cov=False))
+            # hyper-parameters valid for one column; on wider data a covariance-based scorer needs p + 1 samples per
+            # segment, so some calls are rejected (identically by the history-free run) and the history goes on
+            params, _ = data.draw(K.detector_params(det, 1, max_msl=3, max_bw=3, allow_cov=True))
             spec = K.detector_spec(det, params)
             op = {"op": "new_detector", "slot": slot, "spec": spec}
             if share is not None and det in SHARE_KEY and share in self.interp.shared:
                 sspec = self.interp.shared_spec[share]
                 fixed = sspec.get("param") is not None
-                ok = (fixed and sspec["cls"] == "L2Cost") if det in ("CAPA", "MVCAPA") else True
+                ok = (fixed and (sspec["cls"] != "GaussianCovCost" or det == "CAPA") and sspec["cls"] != "L1Cost") \
+                    if det in ("CAPA", "MVCAPA") else True
                 if ok and K.scorer_min_size(sspec, 1) <= params.get("bandwidth", params.get("min_segment_length", 2)):
                     op["share"] = share
             self.run(op)
@@ -633,7 +649,7 @@ def make_machine(tier, api):
             slot = self._det_slot(data)
             spec = self.interp.det_model[slot]["spec"]
             det = spec["cls"]
-            params, _ = data.draw(K.detector_params(det, 1, max_msl=3, max_bw=3, allow_cov=False))
+            params, _ = data.draw(K.detector_params(det, 1, max_msl=3, max_bw=3, allow_cov=True))
             scalar = {k: v for k, v in params.items() if not isinstance(v, dict) and (v is not None or k.endswith("scale"))}
             keys = data.draw(st.lists(st.sampled_from(sorted(scalar)), min_size=1, max_size=len(scalar), unique=True))
             upd = {k: scalar[k] for k in keys}
@@ -749,7 +765,94 @@ class _StepFacet:
         self._interp.step(self._op)
 
 
+# ------------------------------------------------------------------ targeted histories: scorer state that depends on the data
+
+
+STALE_SCORERS = {
+    "PELT": ("cost", [{"cls": "GaussianCovCost"}], "min_segment_length"),
+    "MovingWindow": ("change_score", [{"cls": "GaussianCovCost"}, {"cls": "ChangeScore", "cost": {"cls": "GaussianCovCost"}}], "bandwidth"),
+    "SeededBinarySegmentation": ("change_score", [{"cls": "GaussianCovCost"}, {"cls": "ChangeScore", "cost": {"cls": "GaussianCovCost"}}],
+                                 "min_segment_length"),
+    "CircularBinarySegmentation": ("anomaly_score", [{"cls": "GaussianCovCost"}, {"cls": "LocalAnomalyScore", "cost": {"cls": "GaussianCovCost"}}],
+                                   "min_segment_length"),
+    "CAPA": ("collective_saving", [{"cls": "GaussianCovCost", "param": {"tuple": [0.0, 1.0]}},
+                                   {"cls": "Saving", "baseline_cost": {"cls": "GaussianCovCost", "param": {"tuple": [0.0, 1.0]}}}],
+             "min_segment_length"),
+}
+
+
+@st.composite
+def stale_state_histories(draw, tier):
+    """A detector whose scorer's minimum size depends on the data (covariance cost: p + 1) is used on wide data - where
+    the call may be rejected - and afterwards, possibly after lowering its length parameter with set_params or through a
+    second detector holding the same scorer object, on narrower data."""
+    det = draw(st.sampled_from(sorted(STALE_SCORERS)))
+    key, scorers, length_key = STALE_SCORERS[det]
+    scorer = draw(st.sampled_from(scorers))
+    p_wide = draw(st.integers(2, 4))
+    p_narrow = draw(st.integers(1, p_wide - 1))
+    shapes = ((p_wide, draw(st.integers(14, 30))), (p_narrow, draw(st.integers(12, 30))), (p_narrow, draw(st.integers(12, 30))))
+    hi = draw(st.integers(2, p_wide + 2))
+    lo = draw(st.integers(max(2, p_narrow + 1), max(2, p_narrow + 1) + 1))
+    base = {"cls": det, length_key: hi}
+    if det in ("PELT",):
+        base["penalty_scale"] = draw(st.sampled_from([1.0, 0.3]))
+    elif det == "CAPA":
+        base.update(collective_penalty_scale=draw(st.sampled_from([1.0, 0.3])), point_penalty_scale=draw(st.sampled_from([1.0, 0.5])))
+    else:
+        base["threshold_scale"] = draw(st.sampled_from([1.0, 0.3, None]))
+    plan = draw(st.integers(0, 6))  # 0-2: one detector; 3-6: two detectors around one shared scorer object
+    shared = plan >= 3
+    ops = []
+    if shared:
+        ops.append({"op": "new_shared", "id": 0, "spec": scorer})
+        ops.append({"op": "new_detector", "slot": 0, "spec": dict(base, **{key: None}), "share": 0})
+        ops.append({"op": "new_detector", "slot": 1, "spec": dict(base, **{key: None, length_key: lo}), "share": 0})
+    else:
+        ops.append({"op": "new_detector", "slot": 0, "spec": dict(base, **{key: scorer})})
+    first = draw(st.sampled_from(["fit+predict", "fit+transform_scores", "fit"]))
+    ops.append({"op": "fit", "slot": 0, "data": 0})
+    if first != "fit":
+        ops.append({"op": first.split("+")[1] if det in ("PELT", "MovingWindow", "CAPA") else "predict", "slot": 0, "data": 0})
+    route = ("same_detector", "set_params", "set_params", "second_detector", "second_detector", "set_params", "same_detector")[plan]
+    slot = 0
+    if route == "set_params":
+        ops.append({"op": "set_params", "slot": 0, "params": {length_key: lo}})
+    elif route == "second_detector":
+        slot = 1
+    d = draw(st.sampled_from([1, 2]))
+    if route == "same_detector" and draw(st.booleans()):
+        ops.append({"op": "predict", "slot": 0, "data": d})  # fitted on wide data, applied to narrow data: rejected or not, go on
+    ops.append({"op": "fit", "slot": slot, "data": d})
+    for method in draw(st.lists(st.sampled_from(["predict", "transform", "transform_scores"]), min_size=1, max_size=3)):
+        if method == "transform_scores" and det not in ("PELT", "MovingWindow", "CAPA"):
+            method = "predict"
+        ops.append({"op": method, "slot": slot, "data": draw(st.sampled_from([1, 2]))})
+    # the bulk data are drawn last: Hypothesis biases choices made *after* a large draw towards their minimal value
+    datasets = []
+    for p_, n_ in shapes:
+        X, _ = draw(D.structured_matrix(n_, p_, exact=False, max_shifts=1, max_spikes=1, max_bumps=2, min_noise_scale=0.5))
+        datasets.append(X)
+    return {"datasets": datasets, "ops": ops}
+
+
+def check_stale(case):
+    info = check(case)
+    det = next(op["spec"]["cls"] for op in case["ops"] if op["op"] == "new_detector")
+    route = "set_params" if any(op["op"] == "set_params" for op in case["ops"]) else \
+        ("second_detector" if any(op.get("slot") == 1 and op["op"] == "fit" for op in case["ops"]) else "same_detector")
+    info["classes"] = list(info.get("classes", [])) + [f"det={det}", f"route={route}"]
+    return info
+
+
 FACETS = [
+    Facet(name="stale_scorer_state", check=check_stale, strategy=stale_state_histories,
+          rule=("generated histories for the five detectors that accept a covariance-based scorer (its minimum size is p + 1 of "
+                "the data it was last fitted on): use on 2-4 columns (the call may be rejected), then - after set_params lowering the "
+                "length parameter, through a second detector holding the same scorer object, or directly - fit and predict / transform / "
+                "transform_scores on fewer columns; every outcome (value or exception class) must equal that of a freshly built object; "
+                "non-trivial = produces outputs on >= 2 datasets"),
+          n_quick=160, n_thorough=3000, shards_quick=4, shards_thorough=8, max_samples=2),
     Facet(name="histories", kind="stateful", check=check, machine=make_machine,
           rule=("rule-based state machine: pool of 3-5 generated DataFrames (different n and p, consecutive RangeIndex blocks), up to "
                 "4 detector slots (all seven detectors, optionally constructed around one of 2 shared cost objects), 3 scorer slots; "
